@@ -309,6 +309,15 @@ def t13(ctx):
 RULES.append(t13)
 
 
+@rule("T15", cfgs=["explanations", "checks_explanations"], doc="a union that shrinks the right operand does not abort half-way (explanations builds): proof orientation at the call sites of the leader union (C07.K7); the panic leaves the redundancy half recorded")
+def t15(ctx):
+    from . import c07
+    c07.k7(ctx)
+
+
+RULES.append(t15)
+
+
 @rule("T14", doc="an old handle stays usable between operations: every public &mut entry point returns with empty work-lists (C02.P1) — with requests still queued, parents of a class that was just moved are missing from the indexes extraction and lookup read")
 def t14(ctx):
     from . import c02
@@ -316,3 +325,12 @@ def t14(ctx):
 
 
 RULES.append(t14)
+
+
+@rule("T16", doc="the handle `add` returns stays usable when its class was merged away during the very insertion (an Analysis::modify that unions): semify_app_id keeps exactly the keys among slots(app.id) of the handle's OWN class — taking the slot set from the leader strips every argument of a dead id, and the handle canonicalises to an invocation with no slots (C09.I13)")
+def t16(ctx):
+    from . import c09
+    c09.i13(ctx)
+
+
+RULES.append(t16)
